@@ -2,9 +2,12 @@ package checks
 
 import (
 	"fmt"
+	"math/big"
 	"os"
+	"strings"
 	"time"
 
+	"verif/harness/origin"
 	"verif/harness/vk"
 	"verif/harness/world"
 )
@@ -168,4 +171,104 @@ func listedOfOrErr(res map[string]probeResult) string {
 		return fmt.Sprintf("error:%v", res)
 	}
 	return s
+}
+
+// overlappingPasses: CrlRepo.tla has ONE loader process per entry - passes over a CRL never overlap (the process-wide refresh
+// mutex). This replays what that assumption protects: pass P1 is kept inside its transfer of list N, list N+1 is published, pass
+// P2 is started. Either P2 waits for P1 (the model) and then fetches N+1, or - if passes do overlap - P2 swaps N+1 in and P1
+// swaps the older N over it afterwards. Judged by the property's own predicate: once N+1 was observed, N is never observed
+// again (C08), and what N+1 no longer lists does not revoke (C11).
+func overlappingPasses(c *vk.Ctx, prop string) int {
+	n := 0
+	for _, disk := range []bool{false, true} {
+		rw, err := newRepoWorld(disk, "verify", false, c.Seed*53+int64(n))
+		if err != nil {
+			c.Infra("repo world: %v", err)
+		}
+		func() {
+			defer rw.close()
+			// list 1 = {x, z} in force
+			rw.serve("good", []string{"x", "z"})
+			rw.w.Handshake(rw.chains["driver"])
+			if got, ok := listedOf(firstProbe(rw)); !ok || got != "xz" {
+				c.Drift("overlap-setup:" + got)
+				return
+			}
+			// list 2 = {y, z}; P1 is kept inside its transfer
+			rw.number++
+			l2 := BuildCRL(CRLSpec{Signer: rw.ca, Listed: serialsOf(rw, "y", "z"), Avoid: serialsOf(rw, "x"), Number: rw.number}, Shape{Size: "s300", Pos: "last", Width: "w1", Ext: "none", Enc: "der"})
+			inside := make(chan struct{}, 2)
+			release := make(chan struct{})
+			rw.org.Set(pathRepo, origin.Behaviour{Kind: "gated", Body: l2, Gate: func() {
+				inside <- struct{}{}
+				select {
+				case <-release:
+				case <-time.After(30 * time.Second):
+				}
+			}})
+			p1 := make(chan struct{})
+			go func() { defer close(p1); rw.w.RefreshAll() }()
+			select {
+			case <-inside:
+			case <-time.After(10 * time.Second):
+				c.Drift("overlap-p1-never-fetched")
+				close(release)
+				<-p1
+				return
+			}
+			// list 3 = {x, y} is published (z is no longer listed, x is listed again); P2 starts
+			rw.number++
+			l3 := BuildCRL(CRLSpec{Signer: rw.ca, Listed: serialsOf(rw, "x", "y"), Avoid: serialsOf(rw, "z"), Number: rw.number}, Shape{Size: "s300", Pos: "first", Width: "w1", Ext: "none", Enc: "der"})
+			rw.org.SetBody(pathRepo, l3)
+			p2 := make(chan struct{})
+			go func() { defer close(p2); rw.w.RefreshAll() }()
+			overlapped := false
+			select {
+			case <-p2:
+				overlapped = true // P2 did not wait for P1
+			case <-time.After(400 * time.Millisecond):
+			}
+			mid, midOK := listedOf(firstProbe(rw))
+			close(release)
+			for _, ch := range []chan struct{}{p1, p2} {
+				select {
+				case <-ch:
+				case <-time.After(60 * time.Second):
+					c.Violation(fmt.Sprintf("%s:refresh-pass-never-returns:overlapping", backendName(disk)), "a refresh pass did not return within 60 s", map[string]any{"backend": backendName(disk)})
+					return
+				}
+			}
+			end, endOK := listedOf(firstProbe(rw))
+			n++
+			c.Eval(fmt.Sprintf("overlap|%v", disk))
+			rep := map[string]any{"backend": backendName(disk), "lists": []string{"1={x,z}", "2={y,z} (P1, kept inside its transfer)", "3={x,y} (published while P1 was in flight; P2)"},
+				"p2_returned_before_p1": overlapped, "observed_while_p1_in_flight": mid, "observed_at_the_end": end}
+			if !overlapped {
+				c.Sample(map[string]any{"kind": "overlapping-passes", "backend": backendName(disk), "p2_waited": true, "end": end})
+			}
+			// list 3 is the newest list that any pass fetched; if it was observed, nothing older may be observed afterwards
+			if prop == "C08" && midOK && endOK && mid == "xy" && end != "xy" {
+				c.Violation(fmt.Sprintf("%s:old-list-observed-after-new:overlapping-passes", backendName(disk)),
+					fmt.Sprintf("list 3 {x,y} was observed while an older pass was still in flight; after that pass had ended the lookups answer {%s}: the older list replaced the newer one", end), rep)
+			}
+			if prop == "C11" && endOK && strings.Contains(end, "z") && midOK && !strings.Contains(mid, "z") {
+				c.Violation(fmt.Sprintf("precise:revoked-by-superseded-list:overlapping-passes:%s", backendName(disk)),
+					fmt.Sprintf("list 3 (in force, observed) does not list z; after an older pass ended z is reported revoked again: entries of a superseded list outlive its replacement (lookups: {%s})", end), rep)
+			}
+		}()
+	}
+	return n
+}
+
+func firstProbe(rw *repoWorld) map[string]probeResult {
+	res, _ := rw.probe(5 * time.Second)
+	return res
+}
+
+func serialsOf(rw *repoWorld, names ...string) []*big.Int {
+	var out []*big.Int
+	for _, n := range names {
+		out = append(out, rw.probes[n].Cert.SerialNumber)
+	}
+	return out
 }
